@@ -99,7 +99,7 @@ def run(F, ctx):
     # ---- b
     ctx.rule("R-C32-b", "count provenance: new/duplicate counters follow the membership branch; delete count = len before - len after the retain", floor=2)
     f = F.fn(KG + "::insert_in_memory")
-    newc, dupc = f.local_named("new_count"), f.local_named("dup_count")
+    newc, dupc = f.need_local("new_count"), f.need_local("dup_count")
     lv = live_vectors(f)
     grows = [c for c in f.normal_calls() if _VEC_GROW.search(c.static_args or "") and op_local(c.args[0]) in lv]
     conts = [c for c in f.normal_calls() if _CONTAINS.search(c.static_args or "") and op_local(c.args[0]) in lv]
@@ -134,7 +134,7 @@ def run(F, ctx):
     g = F.fn(KG + "::delete_in_memory")
     lens = [c for c in g.normal_calls() if re.search(r"Vec::<value::Tuple>::len$", c.static_args or "")]
     rets = [c for c in g.normal_calls() if re.search(r"Vec::<value::Tuple>::retain", c.static_args or "")]
-    dc = g.local_named("deleted_count")
+    dc = g.need_local("deleted_count")
     ok = len(rets) == 1 and len(lens) >= 2 and dc is not None
     if ok:
         before = [c for c in lens if g.dominates(c.bb, rets[0].bb)]
